@@ -110,10 +110,13 @@ pub struct Summary {
 
 impl Summary {
     pub fn print(&self) {
-        // cap the number of mismatches reported in full
+        // cap what is reported in full: a few cases per distinct signature, so that one frequent
+        // signature (e.g. a known finding) can never crowd out a different one
         let mut s = serde_json::to_value(self).unwrap();
         if self.mismatches.len() > 50 {
-            s["mismatches"] = serde_json::to_value(&self.mismatches[..50]).unwrap();
+            let mut per_sig: std::collections::BTreeMap<&str, usize> = std::collections::BTreeMap::new();
+            let kept: Vec<&Mismatch> = self.mismatches.iter().filter(|m| { let c = per_sig.entry(m.signature.as_str()).or_insert(0); *c += 1; *c <= 3 }).take(600).collect();
+            s["mismatches"] = serde_json::to_value(&kept).unwrap();
             s["mismatches_total"] = Value::from(self.mismatches.len());
         }
         println!("SUMMARY {}", serde_json::to_string(&s).unwrap());
